@@ -13,6 +13,7 @@ type srvEnv struct {
 	s        *Server
 	pl       *monPlugin
 	lis      *symListener
+	lis2     *symListener // a second, idle listener: Serve is documented to take several
 	remote   netip.Addr
 	serveErr chan error
 	outConns []*symConn
@@ -21,7 +22,7 @@ type srvEnv struct {
 func newSrvEnv() *srvEnv {
 	verifEngineOnly()
 	verifDelayBound(0)
-	e := &srvEnv{pl: newMonPlugin(), lis: newSymListener(), remote: netip.AddrFrom4([4]byte{192, 0, 2, 1}), serveErr: make(chan error, 1)}
+	e := &srvEnv{pl: newMonPlugin(), lis: newSymListener(), lis2: newSymListener(), remote: netip.AddrFrom4([4]byte{192, 0, 2, 1}), serveErr: make(chan error, 1)}
 	e.s, _ = NewServer(netip.AddrFrom4([4]byte{10, 0, 0, 1}))
 	verifDial = &dialScript{outcomes: []dialOutcome{dialOK, dialPendingThenFail}, mk: func(int) *symConn {
 		c := newStagedConn("out")
@@ -32,7 +33,7 @@ func newSrvEnv() *srvEnv {
 }
 
 func (e *srvEnv) serve() {
-	go func() { e.serveErr <- e.s.Serve([]net.Listener{e.lis}) }()
+	go func() { e.serveErr <- e.s.Serve([]net.Listener{e.lis, e.lis2}) }()
 	verifQuiesce()
 }
 
@@ -54,7 +55,7 @@ func srvCloseAndDelete() {
 	if verifTier() >= 1 {
 		d = 3
 	}
-	verifNote("Server with one listener and one peer; the peer is added before or after Serve (symbolic), is active (dials, session Established) or passive (inbound connection accepted through the listener, Established); then Server.Close or Server.DeletePeer is called while, symbolically, one more inbound connection is being offered to the listener: all schedules with at most 2 (quick) / 3 (thorough) delays (sleep-set reduced); happens-before race detection; afterwards Serve must have returned ErrServerClosed (Close) and Serve after Close must return ErrServerClosed")
+	verifNote("Server with two listeners (the second one idle) and one peer; the peer is added before or after Serve (symbolic), is active (dials, session Established) or passive (inbound connection accepted through the listener, Established); then Server.Close or Server.DeletePeer is called while, symbolically, one more inbound connection is being offered to the listener: all schedules with at most 2 (quick) / 3 (thorough) delays (sleep-set reduced); happens-before race detection; afterwards Serve must have returned ErrServerClosed (Close) and Serve after Close must return ErrServerClosed")
 	e := newSrvEnv()
 	e.pl.yieldInCallbacks = true
 	addBefore := verifChoose("add-before-serve", 2) == 1
@@ -143,7 +144,7 @@ func srvCloseAndDelete() {
 	}
 	verifAssert("no-callback-after-close-returns", len(e.pl.events) == ev)
 	verifAssert("no-goroutine-left", verifGoroutines() == 0)
-	verifAssert("listener-closed", e.lis.isClosed)
+	verifAssert("listener-closed", e.lis.isClosed && e.lis2.isClosed)
 	verifAssert("serve-after-close", e.s.Serve(nil) == ErrServerClosed)
 	verifCover("closed")
 }
@@ -151,12 +152,12 @@ func srvCloseAndDelete() {
 // the listener fails: Serve returns the listener error with every peer stopped; Close afterwards returns
 func Verif_C10_listener_error() {
 	verifRaceDetect(true)
-	verifNote("Server with one listener and an Established passive peer; the listener's Accept fails: Serve returns a non-nil error that is not ErrServerClosed, the session was ceased and closed, OnClose delivered, no goroutine left; Close afterwards returns and a later Serve returns ErrServerClosed")
+	verifNote("Server with two listeners and an Established passive peer; one listener's Accept fails: Serve returns a non-nil error that is not ErrServerClosed, the session was ceased and closed, OnClose delivered, no goroutine left; Close afterwards returns and a later Serve returns ErrServerClosed")
 	e := newSrvEnv()
 	cfg := PeerConfig{RemoteAddress: e.remote, LocalAS: 65000, RemoteAS: 65001}
 	verifAssert("addpeer", e.s.AddPeer(cfg, e.pl, WithPassive()) == nil)
 	fl := &failingListener{symListener: newSymListener(), fail: make(chan struct{})}
-	go func() { e.serveErr <- e.s.Serve([]net.Listener{fl}) }()
+	go func() { e.serveErr <- e.s.Serve([]net.Listener{fl, e.lis2}) }()
 	verifQuiesce()
 	sess := newStagedConn("in")
 	sess.remote = e.remote
@@ -168,6 +169,7 @@ func Verif_C10_listener_error() {
 	close(fl.fail)
 	err := <-e.serveErr
 	verifAssert("serve-returns-the-listener-error", err != nil && err != ErrServerClosed)
+	verifAssert("other-listener-closed-too", e.lis2.isClosed)
 	verifAssert("session-ceased-and-closed", sess.closed && sess.lastIsCease())
 	verifAssert("onclose-delivered", e.pl.nClose == 1)
 	e.s.Close()
@@ -205,7 +207,7 @@ func srvAddRacesClose() {
 	if verifTier() >= 1 {
 		d = 3
 	}
-	verifNote("Server with one listener and one active peer with an Established session; Server.Close is called while a second goroutine calls AddPeer for a second (active or passive, symbolic) peer: all schedules with at most 2 (quick) / 3 (thorough) delays (sleep-set reduced); happens-before race detection; after Close, Serve and AddPeer have returned: AddPeer succeeded and the registry holds the peer, every connection dialled for either peer is closed, no goroutine is left and no plugin callback starts any more")
+	verifNote("Server with two listeners and one active peer with an Established session; Server.Close is called while a second goroutine calls AddPeer for a second (active or passive, symbolic) peer: all schedules with at most 2 (quick) / 3 (thorough) delays (sleep-set reduced); happens-before race detection; after Close, Serve and AddPeer have returned: AddPeer succeeded and the registry holds the peer, every connection dialled for either peer is closed, no goroutine is left and no plugin callback starts any more")
 	e := newSrvEnv()
 	verifDial.outcomes = []dialOutcome{dialOK}
 	e.pl.yieldInCallbacks = true
